@@ -69,7 +69,7 @@ def gen_stallwatch(r, tier):
 class C10(Prop):
     id = "C10"
     lean_modules = ["Fan2go.Props.C10"]
-    fact_modules = ["Fan2go.Props.Facts", "Fan2go.Props.Trans", "Fan2go.Props.Trans3A", "Fan2go.Props.Trans3B", "Fan2go.Props.Trans3Fan"]
+    fact_modules = ["Fan2go.Props.Facts", "Fan2go.Props.Trans", "Fan2go.Props.Trans3A", "Fan2go.Props.Trans3B", "Fan2go.Props.Trans3Fan", "Fan2go.Props.Trans3FileFan"]
     rule = ("stallwatch: neverStop hwmon/file/cmd fans (cmd = real scripts and processes), window sizes 1..50, prior RPM averages {0,1,300,1000,5000,random<=32768}, "
             "limits random, constant curve, direct loop; the fan reports 0 RPM from some point on and never recovers; one RPM "
             "poll per control cycle. non-trivial = distinct (kind, window, prior-average class, limits class)")
